@@ -9,6 +9,7 @@
   numeral, duration reader and per-command reader theorems on rendered text.
 -/
 import Ctrmml.Proofs.TrackBuilder
+import Ctrmml.Proofs.TieGroup
 import Ctrmml.Proofs.Mml
 import Ctrmml.Proofs.ReaderLine
 import Ctrmml.Spec.MmlMeaning
@@ -310,6 +311,214 @@ theorem C05_echo_replays (t : Track) (d : UInt16) (k : Nat) (note : UInt16)
 example : (((((Track.new).setEcho 2 3).addNote 0 24).addNote 2 24).addEcho 24).getEvents.drop 2 =
     [{ type := 14, param := -3, on := 0, off := 0 }, { type := 2, param := 60, on := 24, off := 0 }, { type := 14, param := 3, on := 0, off := 0 }] := by
   decide +kernel
+
+/-! ## the extended note: a note with its ties, slur, reverse rests, grace borrow
+
+mml_ref.md: "`^` Tie. Extends duration of previous note", "`Q` … Note length is param/8", "`q` … early
+release": the articulation rule is meant for the whole extended note.  The builder records such a
+note in several events when other events stand between the note and a tie; the statements below are
+about the SUMS over those events: `sumLen` = Σ (on_time + off_time), `sumOn` = Σ on_time over the
+NOTE and TIE events (`Proofs/TieGroup`).  The events of the extended note are the prefix `g` of the
+newest-first event list on top of `base`, the events recorded before its NOTE.
+
+`Live base t post L pre` (Proofs/TieGroup): the note can still be extended — `last_note_pos` points
+at the NOTE/TIE event `L`, `pre` are the pieces earlier ties split off (keyed on for all of their
+length), `post` the events without length recorded since. -/
+
+/-- how live extended notes arise: `add_note` starts one (one event, nothing split off), and any
+calls that record no duration (`Untimed`: settings, raw events without length, drum mode) keep it
+live, only putting their events `z` — none for `Setting`s, steppable ones for `Passable` calls —
+on top -/
+theorem C05_group_live (t : Track) (n : Int) (d : UInt16) :
+    Live t.revEvents (t.addNote n d) [] (noteEvent t n d) [] ∧
+    (∀ (base : List BEvent) (u : Track) (post : List BEvent) (L : BEvent) (pre : List BEvent), Live base u post L pre →
+      ∀ (ops : List Track.Op) (u' : Track), (∀ o ∈ ops, Untimed o) → applyOps u ops = .ok u' →
+        ∃ z, Live base u' (z ++ post) L pre ∧ ((∀ o ∈ ops, Setting o) → z = []) ∧
+          ((∀ o ∈ ops, Passable o) → ∀ x ∈ z, Transparent x)) := by
+  refine ⟨live_addNote t n d, fun base u post L pre hl ops u' hu h => ?_⟩
+  obtain ⟨z, s, e1, e2⟩ := untimed_steps ops u u' hu h
+  exact ⟨z, hl.untimed s, e1, e2⟩
+
+example : Live (Track.new).revEvents ((Track.new).addNote 0 24) [] (noteEvent Track.new 0 24) [] := live_addNote (Track.new) 0 24
+
+/-- THE LAW OF `add_tie` on every live extended note, in all three cases (extend the event, append
+a TIE, append a REST): with `new` = length of the event `last_note_pos` points at + the tie's
+duration (default length substituted, shuffle added), the events of the note afterwards last
+`Σ pre + new` ticks and are keyed on for `Σ pre + on_time(new)` ticks, `on_time` under the quantise
+/ early-release setting in force AT THE TIE.  So the rule is applied to the whole extended note
+exactly when nothing has been split off before (`pre = []`); the pieces split off earlier stay
+keyed on in full (this is D24).  Hypotheses: the invariant, no 16-bit wrap of the extended event,
+and the D6b exclusion (no zero duration under early release). -/
+theorem C05_tie_group_law (base : List BEvent) (t : Track) (hI : t.Inv) (post : List BEvent) (L : BEvent) (pre : List BEvent)
+    (h : Live base t post L pre) (d : UInt16)
+    (hd : t.earlyRelease.toNat = 0 ∨ (t.effDur d).toNat ≠ 0) (hw : evLen L + (t.effDur d).toNat < 65536) :
+    ∃ g, (t.addTie d).revEvents = g ++ base ∧
+      sumLen g = sumLen pre + (evLen L + (t.effDur d).toNat) ∧
+      sumOn g = sumLen pre + TrackBuilder.onRule t (evLen L + (t.effDur d).toNat) ∧
+      TieOutcome base (t.addTie d) g ∧
+      (post = [] → ∃ L', g = L' :: pre ∧ Live base (t.addTie d) [] L' pre) :=
+  live_addTie h hI d hd hw
+
+/-- the three cases on `Q4 c4 | v5 | ^2`: extended note of 72 ticks keyed on for 36 = 72·4/8 -/
+example :
+    let t := (((Track.new).setQuantize 4).1.addNote 0 24).addEvent ev_VOL 5
+    sumLen (t.addTie 48).revEvents = 72 ∧ sumOn (t.addTie 48).revEvents = 36 := by decide +kernel
+
+/-- KEY-ON TIME OF A TIED NOTE.  For every track, every note, every call sequence
+`note, (settings | ties)*, (untimed calls)*, tie`: the events recorded for the extended note (the
+prefix `g` on top of the events that were there before the note) last exactly the written durations
+and are keyed on for exactly the articulation rule applied to that TOTAL, under the quantise /
+early-release setting in force at the last tie — whether the last tie extended the NOTE event, was
+recorded as a TIE or as a REST.
+Extra hypothesis (hence `_partial`): the ties before the last one stand directly behind the note
+(`ext` consists of settings and ties: no event-recording call between the note and those ties).
+`StepsOk` / `StepOk` are the `NoWrap` conditions of `C05_duration_conservation_partial`. -/
+theorem C05_tie_group_on_time_partial (t : Track) (hI : t.Inv) (n : Int) (d0 : UInt16) (ext ops : List Track.Op) (d : UInt16)
+    (t1 t2 : Track)
+    (hd0 : t.earlyRelease.toNat = 0 ∨ (t.effDur d0).toNat ≠ 0)
+    (hext : ∀ o ∈ ext, Setting o ∨ ∃ d', o = Track.Op.addTie d')
+    (hops : ∀ o ∈ ops, Untimed o)
+    (hok : StepsOk (t.addNote n d0) ext) (h1 : applyOps (t.addNote n d0) ext = .ok t1)
+    (h2 : applyOps t1 ops = .ok t2) (hokd : StepOk t2 (.addTie d)) :
+    ∃ g, (t2.addTie d).revEvents = g ++ t.revEvents ∧
+      sumOn g = TrackBuilder.onRule t2 (sumLen g) ∧
+      (sumLen g : Int) = (t.effDur d0).toNat + writtenSum (t.addNote n d0) ext + (t2.effDur d).toNat := by
+  have g0 := addNote_good t hI n d0 hd0
+  obtain ⟨hI1, L, hL1⟩ := ext_steps t.revEvents ext (t.addNote n d0) t1 g0.inv ⟨_, live_addNote t n d0⟩ hext hok h1
+  have c1 := applyOps_conserves ext (t.addNote n d0) t1 g0.inv hok h1
+  have c2 := applyOps_conserves ops t1 t2 hI1 (untimed_stepsOk ops t1 hops) h2
+  rw [untimed_writtenSum ops t1 hops] at c2
+  obtain ⟨z, s, _, _⟩ := untimed_steps ops t1 t2 hops h2
+  have hL2 := hL1.untimed s
+  have hk : StepOk t2 (.addTie d) := hokd
+  simp only [StepOk, hL2.groupLen] at hk
+  obtain ⟨g, e1, e2, e3, _, _⟩ := live_addTie hL2 c2.1 d hk.1 hk.2
+  have c3 := addTie_good t2 c2.1 d hk.1 (by rw [hL2.groupLen]; exact hk.2)
+  refine ⟨g, e1, ?_, ?_⟩
+  · rw [e3, e2]; simp [sumLen]
+  · have ht : (t2.addTie d).total = sumLen g + t.total := by
+      simp only [Track.total, e1, sumLen_append]
+    have := c3.tot
+    have := g0.tot
+    have := c1.2
+    have := c2.2
+    omega
+
+/-- the hypotheses are met by `Q6 c4 ^8 | v10 | ^4` (the input class of the seeded change C05-3):
+one direct tie, one tie behind a volume command; 60 ticks keyed on for 45 = 60·6/8 -/
+example :
+    let t := ((Track.new).setQuantize 6).1
+    let ext : List Track.Op := [.addTie 12]
+    let ops : List Track.Op := [.addEvent ev_VOL 10 0 0]
+    (∀ o ∈ ext, Setting o ∨ ∃ d', o = Track.Op.addTie d') ∧ (∀ o ∈ ops, Untimed o) ∧ StepsOk (t.addNote 0 24) ext ∧
+    StepOk (((t.addNote 0 24).addTie 12).addEvent ev_VOL 10 0 0) (.addTie 24) ∧
+    sumOn ((((t.addNote 0 24).addTie 12).addEvent ev_VOL 10 0 0).addTie 24).revEvents = 45 ∧
+    sumLen ((((t.addNote 0 24).addTie 12).addEvent ev_VOL 10 0 0).addTie 24).revEvents = 60 := by
+  refine ⟨fun o ho => ?_, fun o ho => ?_, by decide +kernel, by decide +kernel, by decide +kernel, by decide +kernel⟩
+  · simp at ho; subst ho; exact Or.inr ⟨12, rfl⟩
+  · simp at ho; subst ho; exact ⟨rfl, rfl⟩
+
+/-- the full statement: the same for ties behind ANY untimed calls (`Untimed` instead of `Setting` in `ext`) -/
+def C05_tie_group_full_statement : Prop :=
+  ∀ (t : Track), t.Inv → ∀ (n : Int) (d0 : UInt16) (ext ops : List Track.Op) (d : UInt16) (t1 t2 : Track),
+    (t.earlyRelease.toNat = 0 ∨ (t.effDur d0).toNat ≠ 0) →
+    (∀ o ∈ ext, Untimed o ∨ ∃ d', o = Track.Op.addTie d') →
+    (∀ o ∈ ops, Untimed o) →
+    StepsOk (t.addNote n d0) ext → applyOps (t.addNote n d0) ext = .ok t1 →
+    applyOps t1 ops = .ok t2 → StepOk t2 (.addTie d) →
+    ∃ g, (t2.addTie d).revEvents = g ++ t.revEvents ∧ sumOn g = TrackBuilder.onRule t2 (sumLen g)
+
+/-- D24: the full statement is false — `Q4 c4 v5 ^2 ^4`: the first tie stands behind the volume
+command and is recorded as a TIE event of its own (NOTE 24+0, TIE 12+36); the second tie
+re-articulates only that TIE event (72·4/8 = 36), so the note of 96 ticks is keyed on for
+24 + 36 = 60 ticks instead of 96·4/8 = 48.  The text is read the same way. -/
+theorem C05_tie_group_counterexample :
+    ¬ C05_tie_group_full_statement ∧
+    eventsOfLine (strBytes "A Q4 c4 v5 ^2 ^4") =
+      [{ type := ev_NOTE, param := 60, on := 24, off := 0 }, { type := ev_VOL, param := 5, on := 0, off := 0 },
+       { type := ev_TIE, param := 0, on := 36, off := 36 }] := by
+  refine ⟨fun h => ?_, by decide +kernel⟩
+  obtain ⟨g, hg, hon⟩ := h ((Track.new).setQuantize 4).1 (setQuantize_inv _ (Track.new_inv _) 4 8).1 0 24
+    [.addEvent ev_VOL 5 0 0, .addTie 48] [] 24 _ _ (Or.inl (by decide))
+    (fun o ho => by
+      simp at ho
+      rcases ho with rfl | rfl
+      · exact Or.inl ⟨rfl, rfl⟩
+      · exact Or.inr ⟨48, rfl⟩)
+    (fun o ho => by simp at ho) (by decide +kernel) rfl rfl (by decide +kernel)
+  have hb : ((Track.new).setQuantize 4).1.revEvents = [] := rfl
+  rw [hb, List.append_nil] at hg
+  subst hg
+  revert hon
+  decide +kernel
+
+/-- SLUR.  On every live extended note whose trailing events the backward walk steps over
+(`Transparent`: no REST, loop point or loop end since the event `last_note_pos` points at),
+`add_slur` succeeds (returns 0), leaves the duration as it is and makes the key-on time the whole
+duration of the extended note: legato.  The note stays live. -/
+theorem C05_slur_group_on_time (base : List BEvent) (t : Track) (hI : t.Inv) (post : List BEvent) (L : BEvent) (pre : List BEvent)
+    (h : Live base t post L pre) (hpost : ∀ x ∈ post, Transparent x) :
+    t.addSlur.2 = 0 ∧
+    ∃ g, t.addSlur.1.revEvents = g ++ base ∧ sumLen g = sumLen (post ++ L :: pre) ∧ sumOn g = sumLen g ∧
+      ∃ L', Live base t.addSlur.1 (slurEvent t :: post) L' pre := by
+  obtain ⟨e0, hl, e1, e2⟩ := live_addSlur h hI hpost
+  refine ⟨e0, (slurEvent t :: post) ++ { L with on := L.on + L.off, off := 0 } :: pre, ?_, ?_, ?_, _, hl⟩
+  · rw [hl.ev]; simp
+  · rw [hl.sums.1, h.sums.1, e1]
+  · rw [hl.sums.2, hl.sums.1, e2, e1]
+
+/-- `Q4 c4 v5 &`: NOTE 12+12 becomes 24+0 -/
+example :
+    Live [] ((((Track.new).setQuantize 4).1.addNote 0 24).addEvent ev_VOL 5)
+      [{ type := ev_VOL, param := 5, on := 0, off := 0, ref := none }] (noteEvent ((Track.new).setQuantize 4).1 0 24) [] ∧
+    sumOn ((((Track.new).setQuantize 4).1.addNote 0 24).addEvent ev_VOL 5).addSlur.1.revEvents = 24 := by
+  refine ⟨⟨rfl, rfl, Or.inl rfl, fun x hx => ?_, rfl⟩, by decide +kernel⟩
+  simp at hx; subst hx; exact ⟨rfl, rfl⟩
+
+/-- REVERSE REST.  On every live extended note (trailing events steppable) a reverse rest shorter
+than the event `last_note_pos` points at succeeds, takes its amount from the duration of the
+extended note, and cuts the silent part first: the key-on time becomes the smaller of what it was
+and the new duration.  The note stays live. -/
+theorem C05_reverse_rest_group_on_time (base : List BEvent) (t : Track) (post : List BEvent) (L : BEvent) (pre : List BEvent)
+    (h : Live base t post L pre) (hpost : ∀ x ∈ post, Transparent x) (d : UInt16) (hd : d.toNat < evLen L) :
+    (t.reverseRest d).2 = .done ∧
+    ∃ g, (t.reverseRest d).1.revEvents = g ++ base ∧
+      sumLen g = sumLen (post ++ L :: pre) - d.toNat ∧
+      sumOn g = min (sumOn (post ++ L :: pre)) (sumLen (post ++ L :: pre) - d.toNat) ∧
+      ∃ L', Live base (t.reverseRest d).1 post L' pre := by
+  obtain ⟨e0, L', hl, e1, e2⟩ := live_reverseRest h hpost d hd
+  refine ⟨e0, post ++ L' :: pre, ?_, ?_, ?_, L', hl⟩
+  · rw [hl.ev]; simp
+  · rw [hl.sums.1, h.sums.1, e1]; omega
+  · rw [hl.sums.2, h.sums.2, h.sums.1, e2]
+    have : L.on.toNat ≤ evLen L := by unfold evLen; omega
+    omega
+
+/-- `Q4 c4 R8`: NOTE 12+12 becomes 12+0; `Q4 c4 R:20`: 4+0 -/
+example :
+    sumOn ((((Track.new).setQuantize 4).1.addNote 0 24).reverseRest 12).1.revEvents = 12 ∧
+    sumOn ((((Track.new).setQuantize 4).1.addNote 0 24).reverseRest 20).1.revEvents = 4 ∧
+    (12 : UInt16).toNat < evLen (noteEvent ((Track.new).setQuantize 4).1 0 24) := by decide +kernel
+
+/-- GRACE NOTE `~n d` = `reverse_rest d` then `add_note n d`: the extended note before it is
+shortened as by a reverse rest (duration − d, key-on time the smaller of the old one and the new
+duration) and is followed by the grace note's own event, which starts a new live extended note -/
+theorem C05_grace_group_on_time (base : List BEvent) (t : Track) (post : List BEvent) (L : BEvent) (pre : List BEvent)
+    (h : Live base t post L pre) (hpost : ∀ x ∈ post, Transparent x) (n : Int) (d : UInt16) (hd : d.toNat < evLen L) :
+    (t.reverseRest d).2 = .done ∧
+    ∃ g, ((t.reverseRest d).1.addNote n d).revEvents = noteEvent (t.reverseRest d).1 n d :: (g ++ base) ∧
+      sumLen g = sumLen (post ++ L :: pre) - d.toNat ∧
+      sumOn g = min (sumOn (post ++ L :: pre)) (sumLen (post ++ L :: pre) - d.toNat) ∧
+      Live (g ++ base) ((t.reverseRest d).1.addNote n d) [] (noteEvent (t.reverseRest d).1 n d) [] := by
+  obtain ⟨e0, g, e1, e2, e3, _⟩ := C05_reverse_rest_group_on_time base t post L pre h hpost d hd
+  refine ⟨e0, g, by rw [addNote_revEvents, e1], e2, e3, ?_⟩
+  have := live_addNote (t.reverseRest d).1 n d
+  rw [e1] at this
+  exact this
+
+/-- `Q4 c4 ~d8`: NOTE 12+12 → 12+0, then the grace note 6+6 -/
+example : (((((Track.new).setQuantize 4).1.addNote 0 24).reverseRest 12).1.addNote 2 12).getEvents =
+    [{ type := 2, param := 60, on := 12, off := 0 }, { type := 2, param := 62, on := 6, off := 6 }] := by decide +kernel
 
 /-! ## pitch -/
 
